@@ -759,6 +759,18 @@ func imageFrom(base map[storage.FileDesc]*file, baseMeta storage.FileDesc, baseH
 	return img
 }
 
+// Discard drops every byte this storage holds (files, base image, op log). goleveldb keeps a closed DB (and through it
+// its storage) reachable for up to a second (mpoolDrain); a harness that opens hundreds of multi-megabyte crash images per
+// second calls Discard after each one so that only an empty shell stays reachable.
+func (s *Stor) Discard() {
+	s.mu.Lock()
+	defer s.mu.Unlock()
+	s.files = map[storage.FileDesc]*file{}
+	s.base = nil
+	s.ops = nil
+	s.closed = true
+}
+
 // Clone copies the current (not crash) state into a fresh storage: all written bytes kept, no lock, no log.
 func (s *Stor) Clone(keepLog bool) *Stor {
 	s.mu.Lock()
